@@ -1956,9 +1956,19 @@ XMLReader::xcodeMoreChars(          XMLCh* const            bufToFill
             // If there are no characters or if we need more but didn't get
             // any, return zero now.
             //
-            if (fRawBytesAvail == 0 ||
-                (needMode && (bytesLeft == fRawBytesAvail - fRawBufIndex)))
+            if (fRawBytesAvail == 0)
                 return 0;
+
+            if (needMode && (bytesLeft == fRawBytesAvail - fRawBufIndex))
+            {
+                // The input ended. If there was room for a whole character
+                // (two XMLCh at most) and bytes are still pending, they are
+                // an incomplete multi-byte sequence: report it instead of
+                // silently dropping them.
+                if (bytesLeft != 0 && maxChars >= 2)
+                    ThrowXMLwithMemMgr(TranscodingException, XMLExcepts::Trans_BadSrcSeq, fMemoryManager);
+                return 0;
+            }
         }
 
         // Ask the transcoder to internalize another batch of chars. It is
